@@ -15,8 +15,9 @@ import progs
 import events
 import specdiff
 
-THEOREM_MODULES = ["Yarel.Props.C06", "Yarel.Props.SpecScoping", "Yarel.Props.FnsTie.Resolver", "Yarel.Props.FnsTie.ScopeEnd"]
-REQUIRED_THEOREMS = ["emit_scope_end_spec", "captured_slots_are_closed", "scope_end_matches_reference", "resolve_local_tie", "resolve_local_innermost", "add_upvalue_spec", "add_upvalue_tie", "resolveLocal_is_innermost_preceding", "pushLocal_fresh", "makeClosure_captures_cells", "write_then_read_shared",
+THEOREM_MODULES = ["Yarel.Props.C06", "Yarel.Props.SpecScoping", "Yarel.Props.FnsTie.Resolver", "Yarel.Props.FnsTie.ScopeEnd", "Yarel.Props.FnsTie.Declare"]
+REQUIRED_THEOREMS = ["declare_variable_spec", "redeclaration_is_reported", "shadowing_is_allowed", "clash_test_matches_reference", "add_local_spec",
+                     "mark_initialised_spec", "mark_last_initialised_spec", "declared_then_initialised_is_found", "emit_scope_end_spec", "captured_slots_are_closed", "scope_end_matches_reference", "resolve_local_tie", "resolve_local_innermost", "add_upvalue_spec", "add_upvalue_tie", "resolveLocal_is_innermost_preceding", "pushLocal_fresh", "makeClosure_captures_cells", "write_then_read_shared",
                      "write_does_not_disturb_other", "truncateEnv_keeps_cells", "open_sorted", "capture_shares", "close_exact", "refines_cells", "refines_cells_run"]
 LEVEL = "proof"
 ASSUMPTIONS = [
@@ -24,8 +25,9 @@ ASSUMPTIONS = [
     "the discipline hypothesis of refines_cells (no truncation below an open cell without closing it) is a property of the COMPILER's output; "
     "it is checked per program by C04's verifier and by the differential runs here, not proved",
     "name resolution: Compiler::resolve_local and Compiler::add_upvalue are translated from compiler.rs on every run and proved equal to the reference "
-    "parser's resolveLocalIn/addUpvalueIn (Props/FnsTie/Resolver.lean); the walk over enclosing functions (resolve_upvalue) and the scope bookkeeping "
-    "(begin/end scope, declare/define) are tied by differential runs and by the resolution grid only",
+    "parser's resolveLocalIn/addUpvalueIn (Props/FnsTie/Resolver.lean); likewise Parser::declare_variable (redeclaration in the same scope reported, shadowing of an outer scope allowed), Compiler::add_local / "
+    "mark_initialised and Parser::emit_scope_end (captured slots leave scope through CloseUpvalue); the walk over enclosing functions (resolve_upvalue), "
+    "begin_scope/end_scope's depth counter and the order in which the parser calls these primitives are tied by differential runs and by the resolution grid only",
 ]
 PROFILES = ["closures", "control", "classes", "exceptions", "fibers", "iteration"]
 
